@@ -47,7 +47,8 @@ func (c03Suite) Gen(rng *Rng, tier string, w *bufio.Writer, stats *Stats) {
 	for _, fam := range []struct {
 		name string
 		qs   []string
-	}{{"scope", focusedScopeShapes()}, {"with-rename", focusedWithShapes()}, {"suffix", focusedSuffixShapes()}, {"aggregate", focusedAggregateShapes()}, {"path-predicate", focusedPathPredicateShapes()}} {
+	}{{"scope", focusedScopeShapes()}, {"with-rename", focusedWithShapes()}, {"suffix", focusedSuffixShapes()}, {"aggregate", focusedAggregateShapes()}, {"path-predicate", focusedPathPredicateShapes()},
+		{"order-alias", focusedOrderAliasShapes()}, {"path-membership", focusedPathMembershipShapes()}} {
 		for _, q := range fam.qs {
 			emit("focused:"+fam.name, "q "+jsonQuote(q))
 			stats.Inc("focused." + fam.name)
